@@ -182,6 +182,7 @@ func (g *Gen) leafContexts() {
 			continue
 		}
 		sel := Clause{K: "leaf", Col: toBS("A"), CmpK: "str", Cmp: ">", Arg: &Val{T: "int", I: intPool[g.rng.Intn(6)]}}
+		inv := func(c Clause) Clause { c.Inv = true; return c }
 		for k := 0; k < 3; k++ {
 			l := g.randomLeaf(s)
 			ctx := []Clause{
@@ -193,6 +194,9 @@ func (g *Gen) leafContexts() {
 				{K: "or", Subs: []Clause{sel, l, sel}},
 				{K: "and", Subs: []Clause{{K: "null"}, l}},
 				{K: "or", Subs: []Clause{{K: "and", Subs: []Clause{sel}}, l}},
+				{K: "or", Subs: []Clause{inv(l), inv(g.randomLeaf(s))}},
+				{K: "or", Subs: []Clause{inv(g.randomLeaf(s)), inv(l), inv(sel)}},
+				{K: "and", Subs: []Clause{inv(l), inv(g.randomLeaf(s))}},
 			}
 			for i := range ctx {
 				if g.thorough() || g.rng.Intn(2) == 0 {
@@ -234,6 +238,13 @@ func genC02(g *Gen) {
 			if g.rng.Intn(5) == 0 {
 				cl = Clause{K: "not", Subs: []Clause{cl}}
 			}
+			g.do(Step{Op: "Filter", Recv: f, Clause: &cl})
+		}
+		// several inverted plain filters side by side (they are evaluated as one batch)
+		for k := 0; k < 4; k++ {
+			a, b, c := cat[g.rng.Intn(len(cat))], cat[g.rng.Intn(len(cat))], cat[g.rng.Intn(len(cat))]
+			a.Inv, b.Inv = true, true
+			cl := Clause{K: "or", Subs: []Clause{a, b, c}}
 			g.do(Step{Op: "Filter", Recv: f, Clause: &cl})
 		}
 		// composite sub clauses: the partial results are merged row by row (orFrames, Not's complement)
